@@ -371,6 +371,60 @@ def to_xml(spec) -> str:
     return ''.join(misc(m) for m in spec['pre']) + elem(spec['root'], {}) + ''.join(misc(m) for m in spec['post'])
 
 
+def serialize(e, scope=None):
+    """well-formed XML text of an element spec (a no-namespace element below a default namespace gets xmlns="";
+    '' text chunks cannot be expressed in text and are dropped).  Used to feed parsers, e.g. fn:parse-xml-fragment."""
+    def esc(t, attr=False):
+        t = t.replace('&', '&amp;').replace('<', '&lt;').replace('>', '&gt;')
+        return t.replace('"', '&quot;') if attr else t
+
+    def misc(m):
+        if m['k'] == 'c':
+            return '<!--%s-->' % m['v']
+        return '<?%s%s?>' % (m['tg'], ' ' + m['v'] if m['v'] else '')
+
+    scope = dict(scope or {})
+    out = []
+    decls = []
+    for p in e['decl']:
+        if scope.get(p) != PREFIX_URI[p]:
+            scope[p] = PREFIX_URI[p]
+            decls.append((p, PREFIX_URI[p]))
+    if e['ns'] is None:
+        if scope.get(''):
+            scope[''] = ''
+            decls = [d for d in decls if d[0] != ''] + [('', '')]
+        name = e['n']
+    else:
+        pfx = next((p for p, u in scope.items() if u == e['ns']), None)
+        if pfx is None:
+            pfx = CANON_PREFIX[e['ns']]
+            scope[pfx] = e['ns']
+            decls.append((pfx, e['ns']))
+        name = (pfx + ':' if pfx else '') + e['n']
+    attrs = []
+    for uri, local, v in e['a']:
+        if uri is None:
+            an = local
+        elif uri == XML_NS:
+            an = 'xml:' + local
+        else:
+            pfx = next((p for p, u in scope.items() if u == uri and p), None)
+            if pfx is None:
+                pfx = CANON_PREFIX[uri]
+                scope[pfx] = uri
+                decls.append((pfx, uri))
+            an = pfx + ':' + local
+        attrs.append(' %s="%s"' % (an, esc(v, True)))
+    out.append('<' + name + ''.join(' xmlns%s="%s"' % (':' + p if p else '', u) for p, u in decls) + ''.join(attrs) + '>')
+    out.append(esc(e['t'] or ''))
+    for c in e['c']:
+        out.append(serialize(c, scope) if c['k'] == 'e' else misc(c))
+        out.append(esc(c['tl'] or ''))
+    out.append('</%s>' % name)
+    return ''.join(out)
+
+
 # --------------------------------------------------------------------------
 # in-place edits of a tree (spec level and object level, kept in step)
 # --------------------------------------------------------------------------
